@@ -347,6 +347,39 @@ def r4(db, rep):
                 rep.violation("R4-rejection", "%s:%s" % (q.replace("Tins::", ""), n["cname"]), facts.loc(f, n),
                               "the address text is parsed with %s(): it accepts leading blanks, a sign, leading zeros and values that wrap, "
                               "so strings that are not valid addresses are accepted instead of being rejected with invalid_address" % n["cname"])
+    # the C-string constructors hand EVERY non-null pointer to the validating parser: the only condition under which the parser
+    # is skipped is the null pointer itself (an empty string is not a valid address and must be rejected, not read as 0.0.0.0)
+    for f in sorted(db.functions.values(), key=lambda x: x["id"]):
+        if f.get("kind") != "ctor" or f.get("rec") not in ("Tins::IPv4Address", "Tins::IPv6Address") or len(f.get("params", ())) != 1 or \
+                (facts.tyi(f, f["params"][0].get("t")) or {}).get("s") != "const char *":
+            continue
+        pv = f["params"][0]["var"]
+        calls_ = [x for x in list(facts.fn_nodes(f)) + [y for i_ in f.get("inits", []) for y in facts.walk(i_["e"])]
+                  if x["k"] in ("CallExpr", "CXXMemberCallExpr") and x.get("cname") in ("ip_to_int", "init") and
+                  any(y["k"] == "DeclRefExpr" and y.get("var") == pv for y in facts.walk(x))]
+        if not calls_:
+            continue
+        key = "%s(const char*):every-non-null" % f["rec"].split("::")[-1]
+        conds = []
+        idx_, par_ = facts.index_fn(f)
+        for root in [i_["e"] for i_ in f.get("inits", [])] + [f["body"]]:
+            for x in facts.walk(root):
+                if x["k"] in ("ConditionalOperator", "IfStmt") and any(y is calls_[0] for y in facts.walk(x)):
+                    c0 = [c_ for c_ in x["c"] if c_ is not None][0]
+                    conds.append(c0)
+        extra = None
+        for c0 in conds:
+            c1 = facts.strip_all(c0)
+            if not (c1["k"] == "DeclRefExpr" and c1.get("var") == pv) and \
+                    not (c1["k"] == "BinaryOperator" and c1.get("op") in ("!=", "==") and
+                         any(facts.strip_all(z).get("var") == pv for z in c1["c"]) and any(facts.cval(z) == 0 for z in c1["c"])):
+                extra = c0
+        if extra is not None:
+            rep.violation("R4-rejection", key, facts.loc(f, extra),
+                          "the text is only parsed when `%s`: besides the null pointer, other inputs (the empty string) bypass the "
+                          "validating parser and are silently accepted as the all-zero address" % facts.expr_str(extra)[:60])
+        else:
+            rep.ok("R4-rejection", key, facts.loc(f), "the parser is skipped for the null pointer only")
     if n_pton < 2 and not n_len:
         rep.analysis_broken("expected inet_pton in the IPv4 and IPv6 text constructors, found %d call(s)" % n_pton)
     hw_parser(db, rep)
